@@ -316,6 +316,16 @@ def one_fingerprint(job):
             else:
                 sc = nasim.make_benchmark_scenario(job["name"], seed=job["seed"])
             env = NASimEnv(sc, fully_obs=job["modes"][0], flat_actions=True, flat_obs=job["modes"][2])
+            for call in job.get("earlier", []):
+                # what the environment object went through before the seeded run (Gymnasium API)
+                if call[0] == "reset_seed":
+                    env.reset(seed=call[1])
+                elif call[0] == "steps":
+                    rs0 = np.random.RandomState(call[1])
+                    for _ in range(call[2]):
+                        env.step(int(rs0.randint(env.action_space.n)))
+                elif call[0] == "reset":
+                    env.reset()
             np.random.seed(job["seed"] + 1)
             h = hashlib.sha1()
             o, _ = env.reset()
@@ -462,7 +472,7 @@ def run(ctx, spec):
             solv_cmds.append([15, scen.sd_wire(sd)])
             solv_meta.append((dict(name=name, shipped=True), sc, sd))
         souts = run_driver_parallel(solv_cmds, jobs=12)
-        replayed = 0
+        replayed, tight_limits = 0, 0
         for (where, sc, sd), so in zip(solv_meta, souts):
             out["evaluations"] += 1
             solvable, plan = so[0], so[1]
@@ -498,6 +508,22 @@ def run(ctx, spec):
                 out["violations"].append(dict(kind="scenario+plan", property=pid, failing_input_found=True, signature=None,
                                               what="replaying the model's plan on the real environment does not end "
                                                    "with the terminal flag", scenario=sd, plan=plan, **where))
+            elif not where.get("shipped") and plan and tight_limits < 8 and len(sd["hosts"]) <= 10:
+                # the same generated scenario with the documented parameter step_limit = length of the plan:
+                # the last step reaches the goal AND the limit, the terminal flag is still due
+                tight_limits += 1
+                sd2 = dict(sd, limit=len(plan))
+                try:
+                    done2 = replay_plan(scen.sd_to_scenario(sd2), plan, sd2)
+                except Inexact:
+                    raise
+                except Exception as e_:   # noqa: BLE001
+                    done2 = False
+                if not done2:
+                    out["violations"].append(dict(kind="scenario+plan", property=pid, failing_input_found=True,
+                                                  signature=None, scenario=sd2, plan=plan,
+                                                  what=f"with step_limit = {len(plan)} (the length of the plan) the replay on "
+                                                       "the real environment does not end with the terminal flag set", **where))
             if len(out["samples"]) < 2:
                 out["samples"].append(dict(where=where, plan_length=len(plan), plan=plan[:4]))
         stats["plans_replayed_on_impl"] = replayed
@@ -539,6 +565,14 @@ def run(ctx, spec):
             jobs.append(dict(common, before=[repr(scen.permuted_sibling(sd0))], same_as=i0))
             jobs.append(dict(common, before=[repr(scen.random_sd(rng, max_subnets=3, max_size=2)),
                                              repr(scen.permuted_sibling(sd0))], same_as=i0))
+        # the same seeded run on an environment object with a past (seeded Gymnasium resets, earlier episodes):
+        # with the global generator seeded identically the trajectory is the one of a fresh object
+        for name in list(bench)[:4]:
+            i0 = len(jobs)
+            common = dict(kind="traj", name=name, seed=9, steps=sizes["traj_steps"], modes=[rng.randrange(2), 1, rng.randrange(2)])
+            jobs.append(dict(common))
+            jobs.append(dict(common, earlier=[["reset_seed", 5], ["steps", 3, 40]], same_as=i0))
+            jobs.append(dict(common, earlier=[["steps", 4, 25], ["reset_seed", 11], ["steps", 5, 25], ["reset"]], same_as=i0))
         base = fingerprints_here(jobs)
         for j, job in enumerate(jobs):
             if "same_as" in job and base[j] != base[job["same_as"]]:
